@@ -65,7 +65,7 @@ def gcirc_case(draw):
             ra2 = ra1 + math.degrees(math.atan2(math.sin(b) * math.sin(s) * math.cos(d1), math.cos(s) - math.sin(d1) * sd2))
             dec2 = math.degrees(d2)
         pairs.append([ra1, dec1, ra2, dec2])
-    return dict(pairs=pairs, units=draw(st.sampled_from([0, 1, 2])), scalar=draw(st.booleans()))
+    return dict(pairs=pairs, units=draw(st.sampled_from([0, 1, 2])), scalar=draw(st.booleans()), broadcast=draw(st.sampled_from([False, False, True])))
 
 
 def gcirc_body(case):
@@ -98,6 +98,18 @@ def gcirc_body(case):
     else:
         got = np.asarray(call(gcirc, a[:, 0], a[:, 1], a[:, 2], a[:, 3], units=units))
         rev = np.asarray(call(gcirc, a[:, 2], a[:, 3], a[:, 0], a[:, 1], units=units))
+    if case.get('broadcast') and len(a) > 1:
+        # one reference point (scalars) against a vector of points, and a column against a row: ordinary NumPy broadcasting
+        one = np.asarray(call(gcirc, float(a[0, 0]), float(a[0, 1]), a[:, 2], a[:, 3], units=units))
+        r0 = al[0] if units == 0 else al[0] * (PI_LD / 180) * np.array([15 if units == 1 else 1, 1, 15 if units == 1 else 1, 1], dtype=LD)
+        refb = vincenty_ld(r0[0], r0[1], r[:, 2], r[:, 3])
+        refb = refb if units == 0 else refb * (180 / PI_LD) * 3600
+        grid = np.asarray(call(gcirc, a[:, 0][:, None], a[:, 1][:, None], a[:, 2][None, :], a[:, 3][None, :], units=units))
+        with judge('gcirc-broadcast'):
+            check(one.shape == (len(a),), 'gcirc:broadcast-shape', str(one.shape))
+            check(bool(np.all(np.abs(one.astype(LD) - refb) <= 1e-6 * refb + floor)), 'gcirc:broadcast-wrong-distance', lambda: dict(units=units))
+            check(grid.shape == (len(a), len(a)) and bool(np.all(np.abs(np.diag(grid) - got) <= 1e-12 * np.maximum(got, 1e-300) + 1e-300)), 'gcirc:broadcast-grid-wrong',
+                  lambda: dict(shape=grid.shape))
     with judge('gcirc'):
         check(got.shape == (len(a),), 'gcirc:shape', str(got.shape))
         check(not np.isnan(got).any(), 'gcirc:nan', lambda: dict(pairs=case['pairs'], got=got.tolist()))
@@ -121,7 +133,7 @@ def gcirc_body(case):
 
 
 def gcirc_classify(case):
-    return ['units:%d' % case['units'], 'scalar' if case['scalar'] else 'array']
+    return ['units:%d' % case['units'], 'scalar' if case['scalar'] else 'array', 'broadcast' if case.get('broadcast') else 'elementwise']
 
 
 def gcirc_nontrivial(case, labels):
@@ -141,7 +153,7 @@ def munu_case(draw):
         else:
             pts.append([180.0 * (1 + draw(uf)), math.degrees(math.asin(draw(uf)))])
     mus = [180.0 * (1 + draw(uf)) for _ in range(draw(st.integers(1, 4)))]
-    return dict(stripe=stripe, points=pts, mus=mus)
+    return dict(stripe=stripe, points=pts, mus=mus, grid2d=draw(st.sampled_from([False, False, True])))
 
 
 def unit_radec(ra, dec):
@@ -180,11 +192,17 @@ def munu_body(case):
     # reference: rotate about z by -node, then about x by incl
     v = unit_radec(P[:, 0] - node, P[:, 1])
     w = np.stack([v[:, 0], v[:, 1] * ci + v[:, 2] * si, -v[:, 1] * si + v[:, 2] * ci], -1)
-    icrs = ICRS(ra=P[:, 0] * u.deg, dec=P[:, 1] * u.deg)
+    shp = (len(P),)
+    if case.get('grid2d'):
+        # positions handed over as a 2-D (image-shaped) coordinate array
+        k = 3 if len(P) % 3 == 0 else (2 if len(P) % 2 == 0 else 1)
+        shp = (k, len(P) // k)
+    icrs = ICRS(ra=P[:, 0].reshape(shp) * u.deg, dec=P[:, 1].reshape(shp) * u.deg)
     mn = call(icrs.transform_to, SDSSMuNu(stripe=s), what='ICRS->SDSSMuNu')
     with judge('forward'):
-        mu = np.asarray(mn.mu.to(u.deg).value, dtype='f8')
-        nu = np.asarray(mn.nu.to(u.deg).value, dtype='f8')
+        check(np.shape(mn.mu) == shp, 'munu:shape-not-kept', lambda: dict(got=np.shape(mn.mu), want=shp))
+        mu = np.asarray(mn.mu.to(u.deg).value, dtype='f8').ravel()
+        nu = np.asarray(mn.nu.to(u.deg).value, dtype='f8').ravel()
         check(np.all(np.isfinite(mu)) and np.all(np.isfinite(nu)), 'munu:non-finite')
         g = unit_radec(mu - node, nu)
         d = angsep_deg(g, w)
@@ -192,7 +210,7 @@ def munu_body(case):
         check(bool(np.all(d < tol_deg(nu_ref, P[:, 1]))), 'munu:forward-differs-from-rotation', lambda: dict(stripe=s, point=case['points'][int(d.argmax())], off_deg=float(d.max())))
     back = call(mn.transform_to, ICRS(), what='SDSSMuNu->ICRS')
     with judge('roundtrip'):
-        b = unit_radec(np.asarray(back.ra.to(u.deg).value), np.asarray(back.dec.to(u.deg).value))
+        b = unit_radec(np.asarray(back.ra.to(u.deg).value).ravel(), np.asarray(back.dec.to(u.deg).value).ravel())
         d = angsep_deg(b, unit_radec(P[:, 0], P[:, 1]))
         check(bool(np.all(d < np.where(tol_deg(nu_ref, P[:, 1]) > 1e-9, 3e-6, 1e-6 / 3600))), 'munu:roundtrip', lambda: dict(stripe=s, point=case['points'][int(d.argmax())], off_arcsec=float(d.max() * 3600)))
         # isometry: pairwise separations preserved
@@ -221,7 +239,7 @@ def munu_body(case):
 
 def munu_classify(case):
     s = case['stripe']
-    out = ['incl!=0' if incl_of(s) != 0 else 'incl=0', 'incl<0' if incl_of(s) < 0 else 'incl>=0', 'stripe>46' if s > 46 else 'stripe<=46']
+    out = ['2d-array' if case.get('grid2d') else '1d-array', 'incl!=0' if incl_of(s) != 0 else 'incl=0', 'incl<0' if incl_of(s) < 0 else 'incl>=0', 'stripe>46' if s > 46 else 'stripe<=46']
     if any(abs(p[1]) == 90 for p in case['points']):
         out.append('pole-point')
     return out
